@@ -300,6 +300,11 @@ func (t *Topic) handleCallEvent(msg *ClientComMessage) {
 				head, t.currentCall.content); err != nil {
 				return
 			}
+			if t.currentCall == nil {
+				// The caller's session was dropped while the message was being delivered
+				// (its send queue is full): that has ended the call.
+				return
+			}
 			// Add callee data to t.currentCall.
 			t.currentCall.parties[msg.sess.sid] = callPartyData{
 				uid:          asUid,
